@@ -215,7 +215,10 @@ func updateFileDiagnostics(
 		}
 	}
 
-	cache.SetFileAggregates(fileURI, rpt.Aggregates)
+	// the file may have been deleted or renamed while it was being linted: its aggregates must not be re-created
+	if _, ok := files[fileURI]; ok {
+		cache.SetFileAggregates(fileURI, rpt.Aggregates)
+	}
 
 	return nil
 }
